@@ -574,6 +574,9 @@ def main(argv=None):
         harness_errors.append('evidence does not validate: %s' % err)
     # runs against another tree (VERIF_REPO: seeded changes in scratch worktrees) must not overwrite the evidence of /repo
     ev_dir = 'evidence' if os.path.realpath(os.environ.get('VERIF_REPO', '/repo')) == os.path.realpath('/repo') else os.path.join('.work', 'evidence-other-tree')
+    if a.lane:
+        # a run restricted to some lanes (--lane, used while a lane is developed) is not the registered check
+        ev_dir = os.path.join('.work', 'evidence-partial')
     os.makedirs(os.path.join(ROOT, ev_dir), exist_ok=True)
     with open(os.path.join(ROOT, ev_dir, prop + '.json'), 'w') as fh:
         json.dump(ev, fh, indent=1, sort_keys=True)
